@@ -25,6 +25,10 @@ NEEDS = {
  "C09-b7": "DelayAdjustedKernelSTDPD with tensor-valued kernel keyword arguments (the pre kernel receives the post kernel's buffers)",
  "C10-a7": "update parts written only through the accumulator properties (updater.weight.pos = t): a dirty flag set only by the updater's own setter skips the update",
  "C10-b7": "a connection shared by two cells of one layer together with layer.update(clear=False) (applied once per cell)",
+ "C11-a7": "synapse with delay > 0, batch > 1 and per-sample selectors whose sample-0 row is all zero while another sample's is not (fast path judged from sample 0)",
+ "C11-b7": "LinearDense / LinearLateral with learned delays, run once, batchsz changed, run again (selector view cached per delay tensor, not per batch size)",
+ "C19-a7": "PoissonIntervalEncoder online with an exact-zero intensity: the 'never' sentinel equals the number of steps, so the element fires on the last slice",
+ "C19-b7": "PoissonIntervalEncoder online with a step time other than 1 ms (steps replaced by the duration in the online branch)",
  "C12-a7": "ALIF whose adapted threshold is cached: a target last stepped in evaluation mode keeps its own threshold after load_state_dict when the run continues in evaluation mode",
  "C12-b7": "DeltaPlusCurrent / SingleExponentialCurrent: the spike ring buffer is no longer persistent while its pointer is",
  "C13-a7": "a refused constraint on an unconstrained dimension stays in the constraint map (written before it is tested)",
